@@ -142,8 +142,8 @@ def main():
         print("does not reproduce on the current tree")
         return 0
     timeout_s = 120 if args.tier == "quick" else 900
-    maxp = 2 if args.tier == "quick" else 3
-    maxn = 2 if args.tier == "quick" else 3
+    maxp = 2 if args.tier == "quick" else 4
+    maxn = 2 if args.tier == "quick" else 4
     rep.bounds = {"predicates": "0..%d" % maxp, "nodes_per_step": "0..%d opaque nodes" % maxn, "initial_stack_depth": "0..1 with symbolic entries",
                   "outside": "determinism of parsing, the document being unchanged by a query, the namespace bindings of the context: relations between whole evaluator runs over a live document"}
     rep.assumptions += ["eval_primary_expr / eval_predicate / eval_node_test / the axis functions are nondeterministic stubs (any node list of the bounded size, any boolean, or an error); they themselves leave the context as they found it (the inductive hypothesis: they are these two functions again, or context-free)",
